@@ -1129,6 +1129,20 @@ func (e *env) genFeeCase(from sdk.AccAddress, wide bool) feeCase {
 		}
 		fee = append(fee, sdk.Coin{Denom: d, Amount: amt})
 	}
+	if wide {
+		// further fee denominations the node has no price for (before, between and after the priced ones): they must never
+		// buy admission, whatever their amount
+		for _, d := range []string{"aaa", "zzz", "Axx"} {
+			if rng.Intn(3) == 0 {
+				amt := hx.Pick(rng, []sdkmath.Int{sdkmath.NewInt(1), sdkmath.NewInt(int64(1 + rng.Intn(1000000))), sdkmath.NewIntWithDecimal(1, 30)})
+				fee = append(fee, sdk.Coin{Denom: d, Amount: amt})
+				e.out.Count("fee-extra-unpriced-denom")
+			}
+		}
+		if rng.Intn(4) != 0 {
+			sort.Slice(fee, func(i, j int) bool { return fee[i].Denom < fee[j].Denom })
+		}
+	}
 	if wide && len(fee) == 2 && rng.Intn(4) == 0 {
 		fee[0], fee[1] = fee[1], fee[0] // unsorted
 	}
